@@ -9,7 +9,7 @@
 -/
 import Koreo.WorkflowFaults
 import Koreo.Lemmas.Workflow
-import Koreo.Props.C03
+import Koreo.Lemmas.Result
 
 namespace Koreo.WorkflowFaults
 open Koreo Koreo.Workflow Koreo.Result
@@ -32,15 +32,37 @@ theorem ofCombined_isOk {c : Combined JVal} (h : (StepRes.ofCombined c).isOk = t
   | okList vs l => simp [Combined.cls, Cls.rank]
   | nonOk o => cases o <;> simp_all [StepRes.ofCombined, StepRes.ofOutcome, StepRes.isOk, Combined.cls, Outcome.cls, Cls.rank]
 
+/-- every element is at most as severe as the fold (C03's `combine_class_is_max`, re-derived here from the
+    C03 lemmas so that this file does not depend on a regenerated table) -/
+theorem fold_rank_ge {α : Type} (xs : List (Outcome α)) {x : Outcome α} (hx : x ∈ xs) :
+    x.cls.rank ≤ (fold xs).cls.rank := by
+  unfold fold
+  rw [fold_cls_rank]
+  exact (foldl_max_ge _ xs).2 x hx
+
+theorem combine_rank_ge {α : Type} (xs : List (Outcome α)) {x : Outcome α} (hx : x ∈ xs) :
+    x.cls.rank ≤ (Result.combine xs).cls.rank := by
+  have hne : xs.isEmpty = false := by cases xs <;> simp_all
+  have h := fold_rank_ge xs hx
+  unfold Result.combine
+  simp only [hne]
+  cases hf : fold xs <;> simp_all [Combined.cls, Outcome.cls]
+
+theorem unwrappedCombine_rank_ge {α : Type} (xs : List (Unwrapped α)) {x : Unwrapped α} (hx : x ∈ xs) :
+    x.lift.cls.rank ≤ (unwrappedCombine xs).cls.rank := by
+  have hne : xs.isEmpty = false := by cases xs <;> simp_all
+  have h := fold_rank_ge (xs.map Unwrapped.lift) (List.mem_map.2 ⟨x, hx, rfl⟩)
+  unfold unwrappedCombine
+  simp only [hne]
+  cases hf : fold (xs.map Unwrapped.lift) <;> simp_all [Combined.cls, Outcome.cls]
+
 /-- one failing iteration makes the forEach step fail -/
 theorem combineItems_err {outs : List StepOut} (h : ∃ o ∈ outs, o.res.isErr = true) :
     (combineItems outs).res.isErr = true := by
   obtain ⟨o, ho, he⟩ := h
   have hmem : o.res.toOutcome ∈ (outs.filter fun o => o.res.isErr).map fun o => o.res.toOutcome :=
     List.mem_map.2 ⟨o, List.mem_filter.2 ⟨ho, he⟩, rfl⟩
-  have hne : ((outs.filter fun o => o.res.isErr).map fun o => o.res.toOutcome) ≠ [] :=
-    List.ne_nil_of_mem hmem
-  have hmax := (Koreo.C03.combine_class_is_max _ hne).1 _ hmem
+  have hmax := combine_rank_ge _ hmem
   have h3 := toOutcome_rank_of_isErr he
   have hc : (StepRes.ofCombined (Result.combine
       ((outs.filter fun o => o.res.isErr).map fun o => o.res.toOutcome))).isErr = true :=
@@ -56,15 +78,11 @@ theorem toUnwrapped_lift_cls (o : StepOut) : (toUnwrapped o).lift.cls = o.res.to
 theorem overallOf_err {outs : List StepOut} (h : ∃ o ∈ outs, o.res.isErr = true) :
     (overallOf outs).isErr = true := by
   obtain ⟨o, ho, he⟩ := h
-  have hmem : (toUnwrapped o).lift ∈ (outs.map toUnwrapped).map Unwrapped.lift :=
-    List.mem_map.2 ⟨toUnwrapped o, List.mem_map.2 ⟨o, ho, rfl⟩, rfl⟩
-  have hne : (outs.map toUnwrapped).map Unwrapped.lift ≠ [] := List.ne_nil_of_mem hmem
-  have hmax := (Koreo.C03.combine_class_is_max _ hne).1 _ hmem
+  have hmax := unwrappedCombine_rank_ge (outs.map toUnwrapped) (List.mem_map.2 ⟨o, ho, rfl⟩)
   rw [toUnwrapped_lift_cls] at hmax
   have h3 := toOutcome_rank_of_isErr he
   unfold overallOf
   apply ofCombined_isErr.2
-  rw [Koreo.C03.unwrapped_class]
   omega
 
 /-- … and Ok only if none is -/
@@ -392,7 +410,8 @@ theorem possible_mayRun {eval : EvalFn} {frun : FRun} {trig : JVal} {interrupted
 theorem possible_labels {eval : EvalFn} {frun : FRun} {trig : JVal} {interrupted : Bool} {wf : Workflow}
     {tags : List (Label × StepTags)} (hp : Possible eval frun trig interrupted wf tags) :
     (entriesF eval frun trig interrupted wf tags).map (·.1) = labels wf.steps := by
-  simpa using runStepsF_labels eval frun trig (causeOf interrupted tags) wf.steps tags {} hp
+  have := runStepsF_labels eval frun trig (causeOf interrupted tags) wf.steps tags {} hp
+  simpa [entriesF, runF] using this
 
 /-- an entry of a listed step is among the outcomes the overall outcome is combined from -/
 theorem mem_listed_of_lookup {wf : Workflow} {res : List (Label × StepOut)} {s : Step} {o : StepOut}
